@@ -26,13 +26,17 @@
 //
 // Case kinds
 //
-//	start <dir source: cfg | env | none> <entry: start | maybechild> <marker set> <marker> <upload var set> <crash> <upload> <mode file: N | F bytes>
+//	start <dir source: cfg | env | none> <entry: start | maybechild> <marker set> <marker> <upload var set> <crash> <upload> <upload start: Z | O seconds ahead of now> <mode file: N | F bytes>
 //	      <local dir reachable> <token: A | P <age ns>> <exit> <returned>
 //	      <n procs> (<S|G> <depth> <marker set> <marker> <upload var>)* <token exists after>
 //	      <token (re)created> <dir changed>
-//	race  <n starters> <token: A | P age> <n procs> (...)*
-//	tokrace <n goroutines> <token: A | P age> <number that got true>
-//	      (the real acquireUploadToken called concurrently in this process)
+//	race  <n starters> <token: A | P age> <upload start: Z | O s> <n procs> (...)*
+//	tokrace <n goroutines> <token: A | P age> <upload start: Z | O s> <number of uploading sidecars>
+//	      (telemetry.Start called concurrently by goroutines of the driver process itself)
+//	history <token: A | P age> <k> (<token aged by ns before this start> <upload start: Z | O s>
+//	      <uploading sidecar launched> <token (re)created>)*
+//	      (k starts one after the other on one directory; between starts the token's
+//	      modification time is moved back, which is what the passage of real time does)
 package main
 
 import (
@@ -50,7 +54,6 @@ import (
 	"time"
 
 	"golang.org/x/telemetry"
-	it "golang.org/x/telemetry/internal/telemetry"
 	. "golang.org/x/telemetry/internal/verifh/vhlib"
 )
 
@@ -63,6 +66,7 @@ const (
 	uploadEnv  = "X_VERIF_UPLOAD"
 	barrierEnv = "X_VERIF_BARRIER"
 	entryEnv   = "X_VERIF_ENTRY"
+	asofEnv    = "X_VERIF_ASOF" // Config.UploadStartTime = now + this many seconds ("" = zero time)
 	childVar   = "GO_TELEMETRY_CHILD"
 	uploadVar  = "GO_TELEMETRY_CHILD_UPLOAD"
 	maxDepth   = 4
@@ -107,6 +111,10 @@ func instrumented(role string) {
 		Upload:        os.Getenv(uploadEnv) == "1",
 		UploadURL:     "http://127.0.0.1:1/",
 	}
+	if a := os.Getenv(asofEnv); a != "" {
+		secs, _ := strconv.ParseInt(a, 10, 64)
+		cfg.UploadStartTime = time.Now().Add(time.Duration(secs) * time.Second)
+	}
 	if role == "go" {
 		cfg.ReportCrashes = true
 		cfg.Upload = true
@@ -137,8 +145,9 @@ type tokenSpec struct {
 }
 
 type startCase struct {
-	dirSrc     int  // where the telemetry directory comes from (dirCfg ...)
-	maybeChild bool // the application calls MaybeChild first, Start later
+	asof       *int64 // Config.UploadStartTime = now + *asof seconds; nil: zero time
+	dirSrc     int    // where the telemetry directory comes from (dirCfg ...)
+	maybeChild bool   // the application calls MaybeChild first, Start later
 	markerSet  bool
 	marker     string
 	uvSet      bool
@@ -323,6 +332,13 @@ func setupDir(dir string, c startCase) (tdir string) {
 	return tdir
 }
 
+func asofFields(a *int64) []string {
+	if a == nil {
+		return []string{"Z"}
+	}
+	return []string{"O", I(*a)}
+}
+
 func tokenFields(t tokenSpec) []string {
 	if !t.present {
 		return []string{"A"}
@@ -357,6 +373,9 @@ func runStart(idx int, c startCase) []string {
 	cmd.Dir = cwd
 	if c.maybeChild {
 		cmd.Env = append(cmd.Env, entryEnv+"=maybechild")
+	}
+	if c.asof != nil {
+		cmd.Env = append(cmd.Env, asofEnv+"="+strconv.FormatInt(*c.asof, 10))
 	}
 	if c.markerSet {
 		cmd.Env = append(cmd.Env, childVar+"="+c.marker)
@@ -398,6 +417,7 @@ func runStart(idx int, c startCase) []string {
 		entry = "maybechild"
 	}
 	f := []string{"start", []string{"cfg", "env", "none"}[c.dirSrc], entry, B(c.markerSet), HS(c.marker), B(c.uvSet), B(c.crash), B(c.upload)}
+	f = append(f, asofFields(c.asof)...)
 	f = append(f, modeFile...)
 	f = append(f, B(!c.broken))
 	f = append(f, tokenFields(c.token)...)
@@ -407,7 +427,7 @@ func runStart(idx int, c startCase) []string {
 	return f
 }
 
-func runRace(idx, n int, tok tokenSpec) []string {
+func runRace(idx, n int, tok tokenSpec, asof *int64) []string {
 	dir := filepath.Join(root, fmt.Sprintf("r%d", idx))
 	os.MkdirAll(dir, 0777)
 	defer os.RemoveAll(dir)
@@ -419,6 +439,9 @@ func runRace(idx, n int, tok tokenSpec) []string {
 	for i := range cmds {
 		cmd := exec.Command(self, "** vh_start racer **")
 		cmd.Env = append(baseEnv(dir, tdir), uploadEnv+"=1", barrierEnv+"=4")
+		if asof != nil {
+			cmd.Env = append(cmd.Env, asofEnv+"="+strconv.FormatInt(*asof, 10))
+		}
 		cmd.ExtraFiles = []*os.File{pw, br}
 		if err := cmd.Start(); err != nil {
 			panic(err)
@@ -445,40 +468,125 @@ func runRace(idx, n int, tok tokenSpec) []string {
 	recs, _, _ := parseLog(filepath.Join(dir, "log"))
 	f := []string{"race", I(int64(n))}
 	f = append(f, tokenFields(tok)...)
+	f = append(f, asofFields(asof)...)
 	f = append(f, procFields(recs)...)
 	return f
 }
 
-// tokRace: n goroutines call the real acquireUploadToken at once.
-func tokRace(idx, n int, tok tokenSpec) []string {
+// tokRace: n goroutines of THIS process call telemetry.Start (Upload set) at
+// once; a goroutine that acquires the token launches the sidecar, which is this
+// binary again and logs its start.  The number of uploading sidecars is the
+// number of acquisitions.
+func tokRace(idx, n int, tok tokenSpec, asof *int64) []string {
 	dir := filepath.Join(root, fmt.Sprintf("k%d", idx))
 	os.MkdirAll(dir, 0777)
 	defer os.RemoveAll(dir)
 	local := "local"
 	tdir := setupDir(dir, startCase{modeFile: &local, localPre: true, token: tok})
-	it.Default = it.NewDir(tdir)
+	// what the sidecars inherit
+	os.Setenv(roleEnv, "app")
+	os.Setenv(logEnv, filepath.Join(dir, "log"))
+	os.Setenv(depthEnv, "1")
+	os.Setenv(tdirEnv, tdir)
+	os.Setenv(uploadEnv, "1")
+	defer os.Unsetenv(roleEnv)
+	cfg := telemetry.Config{TelemetryDir: tdir, Upload: true, UploadURL: "http://127.0.0.1:1/"}
+	if asof != nil {
+		cfg.UploadStartTime = time.Now().Add(time.Duration(*asof) * time.Second)
+	}
 	start := make(chan struct{})
-	res := make([]bool, n)
 	var wg sync.WaitGroup
 	for i := 0; i < n; i++ {
 		wg.Add(1)
 		go func() {
 			defer wg.Done()
 			<-start
-			res[i] = telemetry.VerifAcquireUploadToken()
+			telemetry.Start(cfg).Wait()
 		}()
 	}
 	close(start)
 	wg.Wait()
+	recs, _, _ := parseLog(filepath.Join(dir, "log"))
 	won := 0
-	for _, b := range res {
-		if b {
+	for _, r := range recs {
+		if r.marker == "1" && r.uv == "1" {
 			won++
 		}
 	}
 	f := []string{"tokrace", I(int64(n))}
 	f = append(f, tokenFields(tok)...)
+	f = append(f, asofFields(asof)...)
 	return append(f, I(int64(won)))
+}
+
+// runHistory: k starts one after the other on one directory (Upload set, mode
+// local).  Before each start the token, if there is one, is aged: its
+// modification time is moved back by a generated amount - exactly what the
+// passage of that much real time does to its age.
+func runHistory(idx int, rnd *Rand) []string {
+	dir := filepath.Join(root, fmt.Sprintf("h%d", idx))
+	os.MkdirAll(dir, 0777)
+	defer os.RemoveAll(dir)
+	local := "local"
+	var tok tokenSpec
+	if rnd.Chance(40) {
+		tok = tokenSpec{true, Pick(rnd, []time.Duration{time.Minute, 13 * time.Hour, 23*time.Hour + 50*time.Minute, 24*time.Hour + 10*time.Minute, 72 * time.Hour})}
+	}
+	tdir := setupDir(dir, startCase{modeFile: &local, localPre: true, token: tok})
+	tf := filepath.Join(tdir, "local", "upload.token")
+	k := 3 + rnd.Intn(4)
+	f := []string{"history"}
+	f = append(f, tokenFields(tok)...)
+	f = append(f, I(int64(k)))
+	for i := 0; i < k; i++ {
+		delta := Pick(rnd, []time.Duration{0, 0, time.Hour, 11 * time.Hour, 13 * time.Hour, 23*time.Hour + 50*time.Minute,
+			24*time.Hour + 10*time.Minute, 25 * time.Hour, 72 * time.Hour})
+		if i == 0 {
+			delta = 0
+		}
+		var before int64
+		if fi, err := os.Stat(tf); err == nil {
+			t := fi.ModTime().Add(-delta)
+			os.Chtimes(tf, t, t)
+			before = t.UnixNano()
+		}
+		var asof *int64
+		if rnd.Chance(45) {
+			a := Pick(rnd, []int64{0, 25 * 3600, 8 * 86400, 400 * 86400, -25 * 3600, 3600})
+			asof = &a
+		}
+		os.Remove(filepath.Join(dir, "log"))
+		pr, pw, _ := os.Pipe()
+		cmd := exec.Command(self, "** vh_start history **")
+		cmd.Env = append(baseEnv(dir, tdir), uploadEnv+"=1")
+		if asof != nil {
+			cmd.Env = append(cmd.Env, asofEnv+"="+strconv.FormatInt(*asof, 10))
+		}
+		cmd.Dir = filepath.Join(dir, "cwd")
+		cmd.ExtraFiles = []*os.File{pw}
+		cmd.Run()
+		pw.Close()
+		if !waitAll(pr) {
+			fmt.Fprintf(os.Stderr, "vh_start: descendants of history %d did not exit\n", idx)
+			os.Exit(3)
+		}
+		pr.Close()
+		recs, _, _ := parseLog(filepath.Join(dir, "log"))
+		launched := false
+		for _, r := range recs {
+			if r.depth >= 1 && r.marker == "1" && r.uv == "1" {
+				launched = true
+			}
+		}
+		created := false
+		if fi, err := os.Stat(tf); err == nil {
+			created = fi.ModTime().UnixNano() != before
+		}
+		f = append(f, I(int64(delta)))
+		f = append(f, asofFields(asof)...)
+		f = append(f, B(launched), B(created))
+	}
+	return f
 }
 
 func sp(s string) *string { return &s }
@@ -560,6 +668,17 @@ func main() {
 			}
 		}
 	}
+	// Config.UploadStartTime more than a period ahead of the real clock (its documented use)
+	for _, ahead := range []int64{25 * 3600, 8 * 86400} {
+		for _, crash := range []bool{false, true} {
+			for _, md := range []*string{sp("on 2024-01-05"), sp("local 2024-01-05")} {
+				for _, tk := range tokens {
+					a := ahead
+					cases = append(cases, startCase{asof: &a, crash: crash, upload: true, modeFile: md, token: tk, localPre: true})
+				}
+			}
+		}
+	}
 	moreMarkers := []markerSpec{{false, ""}, {true, ""}, {true, "1"}, {true, "2"}, {true, "x"}, {true, "0"}, {true, "11"},
 		{true, " 1"}, {true, "true"}, {true, "3"}}
 	moreModes := []*string{nil, sp("on"), sp("on 2024-01-05"), sp("local"), sp("off"), sp("off 2024-01-05\n"), sp(" off"),
@@ -582,6 +701,10 @@ func main() {
 		}
 		if c.broken { // nothing can exist below a regular file
 			c.token = tokenSpec{}
+		}
+		if rnd.Chance(35) {
+			a := Pick(rnd, []int64{0, 3600, 25 * 3600, 8 * 86400, 400 * 86400, -25 * 3600, -8 * 86400})
+			c.asof = &a
 		}
 		switch r := rnd.Intn(100); {
 		case r < 12:
@@ -617,6 +740,11 @@ func main() {
 			out.Note("telemetry-dir-unreachable")
 		}
 		out.Note("dir-source-" + []string{"config", "user-config-dir", "none-env-unset"}[c.dirSrc])
+		if c.asof != nil && *c.asof >= 24*3600 {
+			out.Note("upload-start-time-over-a-period-ahead")
+		} else if c.asof != nil {
+			out.Note("upload-start-time-set")
+		}
 		if c.maybeChild {
 			out.Note("entry-maybechild-then-start")
 		} else {
@@ -651,11 +779,16 @@ func main() {
 	raceTokens := []tokenSpec{{false, 0}, {false, 0}, {true, time.Hour}, {true, 25 * time.Hour}}
 	for i := 0; i < races; i++ {
 		tk := raceTokens[i%len(raceTokens)]
-		f := runRace(i, 8, tk)
+		var asof *int64
+		if i%2 == 1 {
+			a := Pick(rnd, []int64{25 * 3600, 8 * 86400, 400 * 86400})
+			asof = &a
+		}
+		f := runRace(i, 8, tk, asof)
 		out.Note("race")
 		out.Case(true, f...)
 	}
-	// the real acquireUploadToken raced by goroutines of this process
+	// telemetry.Start raced by goroutines of this process
 	rounds := 400
 	if os.Getenv("VERIF_TIER") == "thorough" {
 		rounds = 6000
@@ -668,12 +801,26 @@ func main() {
 		case 7:
 			tk = tokenSpec{true, Pick(rnd, ages[5:])}
 		}
-		f := tokRace(i, 4+rnd.Intn(13), tk)
+		var asof *int64
+		if i%3 == 1 {
+			a := Pick(rnd, []int64{0, 25 * 3600, 8 * 86400, 400 * 86400, -25 * 3600})
+			asof = &a
+		}
+		f := tokRace(i, 4+rnd.Intn(13), tk, asof)
 		out.Note("tokrace")
 		if tk.present && tk.age >= 24*time.Hour && f[len(f)-1] != "i1" {
 			out.Note("tokrace-stale-token-winners-not-1")
 		}
 		out.Case(true, f...)
+	}
+	// histories of starts on one directory, real time passing in between
+	hist := 40
+	if os.Getenv("VERIF_TIER") == "thorough" {
+		hist = 600
+	}
+	for i := 0; i < hist; i++ {
+		out.Note("history")
+		out.Case(true, runHistory(i, rnd)...)
 	}
 	out.Close()
 }
